@@ -168,6 +168,12 @@ func C01Configs(thorough bool) []*world.Config {
 	add(world.StringCfg(2, []uint8{0, 1, 0, 2, 0}, B, "none"))
 	add(world.BytesCfg(2, []uint8{0, 1, 0, 2, 0}, B, "none"))
 	add(world.StructCfg(2, []uint8{0, 1, 0, 2, 0}, M, "none"))
+	// exact state key: the same node contents reached with and without spare capacity in its slices are
+	// different states (an append that writes into a shared backing array only shows in the former)
+	add(world.ExactKey(world.UintCfg(2, u(1, 5), 1, B, "none")))
+	add(world.ExactKey(depth(world.UintCfg(2, u(1, 5), 1, M, "big"), 7)))
+	add(world.ExactKey(depth(world.IntCfg(4, []int{1, 4, 5, 8, 9, 12}, []interface{}{"a"}, "", B, "big"), 6)))
+	add(world.ExactKey(depth(world.UintCfg(3, []interface{}{uint(1), uint(2), uint(3), uint(4), uint(6), uint(9)}, 1, B, "big"), 6)))
 	add(ChainSeeded(M, 3))
 	add(Seeded16(B, 2))
 	add(LateInsertSeeded(B, 6))
@@ -206,7 +212,7 @@ func depth(c *world.Config, d int) *world.Config {
 func C01(run *report.Run) {
 	for _, cfg := range C01Configs(run.Thorough()) {
 		e := &explore.Explorer{Cfg: cfg, Ops: SingleOps(cfg, true), Mon: &c01Mon{cfg: cfg}, Reduced: true, MaxDepth: cfg.MaxDepth}
-		if os.Getenv("VERIF_EXACT") != "" {
+		if cfg.Exact || os.Getenv("VERIF_EXACT") != "" {
 			e.Reduced = false
 		}
 		if f := os.Getenv("VERIF_ONLY"); f != "" && !strings.Contains(cfg.Name, f) {
